@@ -14,7 +14,7 @@ git -C /repo worktree add -q --detach $wt HEAD || exit 2
 git -C $wt apply $dir/patch.diff || exit 2
 export GOFLAGS=-mod=mod GOPROXY=off GOSUMDB=off GOTOOLCHAIN=local
 s=$(date +%s)
-( cd $snap && VERIF_ROOT=$snap VERIF_REPO=$wt GOSYM_WORKERS=${GOSYM_WORKERS:-6} ./bin/gosym check $prop quick ) > /tmp/snapeval_$id.log 2>&1
+( cd $snap && VERIF_ROOT=$snap VERIF_REPO=$wt GOSYM_WORKERS=${GOSYM_WORKERS:-6} ./bin/gosym check $prop $(case $prop in C01|C02|C08|C11|C16) echo thorough;; *) echo quick;; esac) ) > /tmp/snapeval_$id.log 2>&1
 rc=$?
 e=$(date +%s)
 echo "seed $id property $prop: rc=$rc ($((e-s))s) $(grep -c '^VIOLATION' /tmp/snapeval_$id.log) violation lines $(grep -c INCONCLUSIVE /tmp/snapeval_$id.log) inconclusive"
